@@ -3,10 +3,19 @@
 
   What is proved here, for ALL buffers / offsets / objects (no size bound):
   * **termination**: every function of the model is a total Lean function (none is `partial`; the
-    recursions are structural or well-founded on `b.size - i`); the only artefact, the progress test of the
-    generic loop driver, is shown never to fire: `progress_*` for all seven loop bodies (Call-ID, integer,
-    CSeq, name-addr, token parameter, header line, quoted string). These are also the termination arguments
-    of the corresponding Go `for i < len(buf)` loops.
+    recursions are structural or well-founded on `b.size - i`); the model's artefacts are (a) the progress
+    test of the generic loop driver, shown never to fire: `progress_*` for all seven loop bodies (Call-ID, integer,
+    CSeq, name-addr, token parameter, header line, quoted string) — these are also the termination arguments of the
+    corresponding Go `for i < len(buf)` loops — and (b) six more loop guards that the Go `for { … continue }` loops
+    do not have (value lists, header block, URI lists: model-only verdict `lbug`; Via branch loop: a silent exit),
+    shown never to be taken (`Sipsp.Proofs.AuditFixA`, found missing by the sceptical review): `*_no_model_exit` for
+    ParseTokenParam, ParseNameAddrPVal, ParseAllContactValues, ParseAllPAIValues, ParseHdrLine (no hypothesis at all),
+    ParseHeaders, ParseSIPMsg (one call, every chunk schedule; Init and Reset-after-any-history objects qualify),
+    ParseAllURIParams / Hdrs (new and reset lists, every option word, every schedule); `viabr_guard_always_holds`,
+    `viabr_loop_unguarded`, `viabr_exit_irrelevant`: GetViaBrSig's guard holds on EVERY input, the loop equals the
+    Go recursion without it, the value at the dead exit is irrelevant. Just outside the domain (an element left in a
+    non-idle state by the caller, an object re-used after an error verdict without Reset) the guards do fire while Go
+    carries on with the stale element — those inputs are excluded by the legitimacy hypotheses, tests pin them.
   * **offset sanity** for ParseCallIDVal: `offs ≤ o' ≤ len(buf)` whatever the verdict
     (`callid_offs_sane`; the integer parser has the same shape), and for the lexical layer (`lws_offs_sane`).
   * **isolation (static part)**: the regenerated source facts show no write to a package-level variable
@@ -42,6 +51,7 @@ import Sipsp.Proofs.SafeMsg
 import Sipsp.Tie
 import Sipsp.Proofs.SafeRest
 import Sipsp.Proofs.SigCompose
+import Sipsp.Proofs.AuditFixA
 
 namespace Sipsp.C04
 open Sipsp
@@ -326,5 +336,82 @@ theorem reset_after_history_is_init : type_of% @Sipsp.sc_reset_after_history := 
 
 /-- **ContainsIP6 never panics** -/
 theorem containsip6_never_panics : type_of% @Sipsp.containsIP6_safe := @Sipsp.containsIP6_safe
+
+/-! ### the model-only loop guards are never taken (the functions return) (proved in `Sipsp.Proofs.AuditFixA`) -/
+
+/-- **the guard of `viaBrLoop` holds on every input**: a MoreValues verdict of the parameter parser (new object,
+    the Via-branch options) lies strictly after the start and inside the buffer -/
+theorem viabr_guard_always_holds : type_of% @Sipsp.afa_viaBr_guard := @Sipsp.afa_viaBr_guard
+
+/-- **`viaBrLoop` satisfies the recursion of the Go loop without the guard** (every offset inside the buffer) -/
+theorem viabr_loop_unguarded : type_of% @Sipsp.viaBrLoop_unguarded := @Sipsp.viaBrLoop_unguarded
+
+/-- **GetViaBrSig, every input: the model-only exit is never taken** (whatever it would return, the result is the same) -/
+theorem viabr_exit_irrelevant : type_of% @Sipsp.getViaBrSig_exit_irrelevant := @Sipsp.getViaBrSig_exit_irrelevant
+
+/-- **ParseTokenParam never returns the model-only verdict** (every buffer, offset, object, option set) -/
+theorem tokparam_no_model_exit : type_of% @Sipsp.parseTokenParam_ne_lbug := @Sipsp.parseTokenParam_ne_lbug
+
+/-- **ParseNameAddrPVal never returns the model-only verdict** (every header kind, buffer, offset, object) -/
+theorem nameaddr_no_model_exit : type_of% @Sipsp.parseNameAddrPVal_ne_lbug := @Sipsp.parseNameAddrPVal_ne_lbug
+
+/-- **ParseAllContactValues never takes the model-only exit**: every buffer, offset and object (in particular under
+    `CtSafe`, the hypothesis of `contacts_never_panics`) -/
+theorem contacts_no_model_exit : type_of% @Sipsp.parseAllContactValues_ne_lbug := @Sipsp.parseAllContactValues_ne_lbug
+
+/-- **ParseAllPAIValues never takes the model-only exit** (every buffer, offset and object) -/
+theorem pais_no_model_exit : type_of% @Sipsp.parseAllPAIValues_ne_lbug := @Sipsp.parseAllPAIValues_ne_lbug
+
+/-- **ParseHdrLine never returns the model-only verdict** (every buffer, offset, header object, values object or nil) -/
+theorem hdrline_no_model_exit : type_of% @Sipsp.parseHdrLine_ne_lbug := @Sipsp.parseHdrLine_ne_lbug
+
+/-- **ParseHeaders never takes the model-only exit**, from every legitimate list / values object — the hypotheses
+    of `headers_never_panics` minus the ones not needed (`HlsSafe`, the 65,535 limit): new, finished, or returned by an
+    earlier call on a prefix of the buffer with MoreBytes (`hlsOK`, `hbOK`), and no stale suspended header in the slots
+    still to be filled (`hlsPend`) -/
+theorem headers_no_model_exit : type_of% @Sipsp.parseHeaders_ne_lbug := @Sipsp.parseHeaders_ne_lbug
+
+/-- ParseHeaders on the list and values object of any Init message object (caller arrays of any capacity, or none),
+    with or without a values object -/
+theorem headers_no_model_exit_init : type_of% @Sipsp.parseHeaders_ne_lbug_init := @Sipsp.parseHeaders_ne_lbug_init
+
+/-- **ParseSIPMsg never takes a model-only exit — one call, any legitimate object** (`msgOK2`, the legitimacy
+    hypothesis of `msg_never_panics`; `MsgSafe` and the 65,535 limit are not needed here) -/
+theorem msg_no_model_exit : type_of% @Sipsp.parseSIPMsg_ne_lbug := @Sipsp.parseSIPMsg_ne_lbug
+
+/-- … from any object produced by Init: any previous contents, caller arrays of any capacity (or none), any start
+    offset inside the buffer, any flags -/
+theorem msg_no_model_exit_init : type_of% @Sipsp.parseSIPMsg_ne_lbug_init := @Sipsp.parseSIPMsg_ne_lbug_init
+
+/-- **every chunk schedule**: the chain of resumed ParseSIPMsg calls never ends with the model-only verdict (the
+    hypotheses are those of `msg_schedule_never_panics`) -/
+theorem msg_schedule_no_model_exit : type_of% @Sipsp.parseSIPMsg_schedule_ne_lbug := @Sipsp.parseSIPMsg_schedule_ne_lbug
+
+/-- **every chunk schedule, from Init** -/
+theorem msg_schedule_no_model_exit_init : type_of% @Sipsp.parseSIPMsg_schedule_ne_lbug_init := @Sipsp.parseSIPMsg_schedule_ne_lbug_init
+
+/-- **after ANY history of Init / parse calls (complete, suspended, failed) / Reset, then Reset**: the next
+    ParseSIPMsg call, at any offset inside any buffer, never takes a model-only exit (`ScReach`: the reachability
+    predicate of `sig_never_panics_history`; Reset after any history is an Init object) -/
+theorem msg_no_model_exit_reset : type_of% @Sipsp.parseSIPMsg_ne_lbug_reset := @Sipsp.parseSIPMsg_ne_lbug_reset
+
+/-- **ParseAllURIParams never takes the model-only exit**: every buffer, every offset inside it, every option word,
+    every clean list (unused slots zero: new lists of any capacity, lists after Reset, lists returned by earlier
+    calls — see `plOK_new`, `plOK_reset`, `parseAllURIParams_post`) -/
+theorem uriparams_no_model_exit : type_of% @Sipsp.parseAllURIParams_ne_lbug := @Sipsp.parseAllURIParams_ne_lbug
+
+/-- **ParseAllURIHdrs never takes the model-only exit** (as `parseAllURIParams_ne_lbug`; `hlClean_new`, `hlClean_reset`,
+    `parseAllURIHdrs_post`) -/
+theorem urihdrs_no_model_exit : type_of% @Sipsp.parseAllURIHdrs_ne_lbug := @Sipsp.parseAllURIHdrs_ne_lbug
+
+/-- new lists of any capacity and lists after Reset qualify -/
+theorem uri_lists_qualify : type_of% @Sipsp.afa_lists_qualify := @Sipsp.afa_lists_qualify
+
+/-- **ParseAllURIParams, every chunk schedule (option off)**: the chain of resumed calls never ends with the
+    model-only verdict (hypotheses of `parseAllURIParams_schedule`) -/
+theorem uriparams_schedule_no_model_exit : type_of% @Sipsp.parseAllURIParams_schedule_ne_lbug := @Sipsp.parseAllURIParams_schedule_ne_lbug
+
+/-- **ParseAllURIHdrs, every chunk schedule (option off)** -/
+theorem urihdrs_schedule_no_model_exit : type_of% @Sipsp.parseAllURIHdrs_schedule_ne_lbug := @Sipsp.parseAllURIHdrs_schedule_ne_lbug
 
 end Sipsp.C04
